@@ -286,6 +286,22 @@ fn main() {
                 }
                 h.finish().value().to_string()
             }
+            // cdc <nsplits 0|1> [<split>] <bytes...>: CDC partitioner token of the byte string, optionally fed in two chunks
+            "cdc" => {
+                use scylla::routing::partitioner::{CDCPartitioner, Partitioner, PartitionerHasher};
+                let two = num(1) == 1;
+                let off = if two { 3 } else { 2 };
+                let data: Vec<u8> = (off..a.len()).map(|i| num(i) as u8).collect();
+                let mut h = CDCPartitioner.build_hasher();
+                if two {
+                    let s = num(2) as usize;
+                    h.write(&data[..s]);
+                    h.write(&data[s..]);
+                } else {
+                    h.write(&data);
+                }
+                h.finish().value().to_string()
+            }
             // pkmeta <marker index of pk column 0> <.. of pk column 1> ...: a PREPARED result whose partition key columns sit on
             // those bind markers goes through the real frame parser; prints pk_indexes as index:sequence,...
             "pkmeta" => {
